@@ -117,6 +117,7 @@ def rule_anchors():
 
 
 ENGINE_TABLES = {"loops.py": {"C13"}, "assumptions.py": {"C08", "C09"}, "rangedrv.py": {"C08", "C09"}, "exthdr.py": {"C05", "C08"}}
+ALIASES = {}                # new C name -> reference name, for functions recognised as pure renames in this run
 CURRENT_DEFINED = None      # C names of the functions defined in the normalised plain view of this run (set by Context.plain)
 
 
@@ -196,7 +197,43 @@ class Views:
         with ThreadPoolExecutor(max_workers=16) as ex:
             for k, v in ex.map(comp, jobs):
                 self.units[k] = v
+        self._find_renames()
         return self
+
+    def _find_renames(self):
+        """A function of the reference tree that the rules name and that is no longer defined, while exactly one new function has the body
+        it had (fingerprint.py): a pure rename.  The new name is then treated as the old one throughout (ALIASES), and says so in the
+        evidence.  Anything else (changed body, merged, removed) stays 'vanished'."""
+        global ALIASES
+        ALIASES = {}
+        here = os.path.dirname(os.path.abspath(__file__))
+        known = set(open(os.path.join(here, "known_functions.txt")).read().split())
+        linked = os.path.join(self.dir, "all.link.bc")
+        _run([LLVM_LINK] + [self.units[k] for k in sorted(self.units)] + ["-o", linked])
+        self._linked = linked
+        import re
+        out = _run(["llvm-nm-14", "--defined-only", linked])
+        now = {re.sub(r"\.\d+$", "", l.split()[-1]) for l in out.splitlines() if len(l.split()) >= 2 and l.split()[-2] in ("T", "t")}
+        missing = (rule_anchors() & known) - now
+        if not missing:
+            return
+        import json as _json
+        from .ir import Module
+        from .fingerprint import fingerprint
+        ref = _json.load(open(os.path.join(here, "known_fingerprints.json")))
+        js = os.path.join(self.dir, "all.raw.json")
+        _run([IRX, linked, js])
+        m = Module(js)
+        new = {}
+        for f in m.defined():
+            if f.cname not in known:
+                new.setdefault(fingerprint(f), set()).add(f.cname)
+        for a in sorted(missing):
+            cands = set()
+            for fp in ref.get(a, []):
+                cands |= new.get(fp, set())
+            if len(cands) == 1:
+                ALIASES[cands.pop()] = a
 
     def __exit__(self, *a):
         if self.dir and not self.keep:
@@ -214,7 +251,10 @@ class Views:
         # address-taken and recursive functions keep their identity.
         anchors = os.path.join(self.dir, "anchors.txt")
         with open(anchors, "w") as f:
-            f.write("\n".join(sorted(rule_anchors())) + "\n")
+            # only names that were functions of the reference tree count (a field or variable name in a rule must not pin an unrelated
+            # new helper that happens to carry it)
+            known = set(open(os.path.join(os.path.dirname(os.path.abspath(__file__)), "known_functions.txt")).read().split())
+            f.write("\n".join(sorted((rule_anchors() & known) | set(ALIASES))) + "\n")
         marked = os.path.join(self.dir, "plain.marked.bc")
         self.mark_stats = _run([IRX, "--mark", anchors, linked, marked]).strip()
         _run([OPT, "-passes=always-inline,globaldce,function(sroa,early-cse)", marked, "-o", outbc])
